@@ -59,7 +59,7 @@ Definition sstep (hc : hostcfg) (cf : ccfg) (univ : list addr) (tok : addr) (ss 
   let c0 := cclear (ss_cmp ss) in
   match c with
   | STok o au deny w =>
-      let '(s', out) := step hc (ss_tok ss) (mkCall o au (orc_of univ c0 deny w)) in
+      let '(s', out) := step hc (ss_tok ss) (mkCall o au (fun _ => orc_of univ c0 deny w)) in
       match out with
       | Fail => (mkSS s0 c0, Fail)
       | Ok r =>
@@ -75,7 +75,7 @@ Definition sstep (hc : hostcfg) (cf : ccfg) (univ : list addr) (tok : addr) (ss 
 (* the token's observation in this family: the collaborators are real contracts, so there are no
    mock logs; what they received shows in the compliance modules' log instead *)
 Definition strip (o : obs) : obs :=
-  mkObs (ob_paused o) (ob_supply o) (ob_accts o) (ob_allow o) [] [] (ob_cmp_set o) (ob_idv_set o).
+  mkObs (ob_paused o) (ob_supply o) (ob_accts o) (ob_allow o) [] [] (ob_cmp_at o) (ob_idv_at o) None None.
 Definition sobserve (univ : list addr) (tok : addr) (ss : sstate) : sobs :=
   mkSObs (strip (observe univ (ss_tok ss))) (cobserve [tok] (ss_cmp ss)).
 
@@ -180,7 +180,7 @@ Definition no_mlog (cc : cobs) : bool := match co_log cc with [] => true | _ => 
 Definition tok_unchanged (pt ct : obs) : bool :=
   eqb_list eqb_acct (ob_accts pt) (ob_accts ct) && Bool.eqb (ob_paused pt) (ob_paused ct)
   && eqb_list Z.eqb (ob_allow pt) (ob_allow ct) && (ob_supply pt =? ob_supply ct)
-  && Bool.eqb (ob_cmp_set pt) (ob_cmp_set ct) && Bool.eqb (ob_idv_set pt) (ob_idv_set ct).
+  && eqb_oaddr (ob_cmp_at pt) (ob_cmp_at ct) && eqb_oaddr (ob_idv_at pt) (ob_idv_at ct).
 
 Definition smon_step (cf : ccfg) (univ : list addr) (tok : addr) (prev : sobs) (it : sitem) : bool :=
   let pt := so_tok prev in let ct := so_tok (si_obs it) in
@@ -196,8 +196,11 @@ Definition smon_step (cf : ccfg) (univ : list addr) (tok : addr) (prev : sobs) (
      | SCmp c => cmon_step cf [tok] pc (CI c (si_out it) cc) && tok_unchanged pt ct
      | SEdit => tok_unchanged pt ct && cmp_unchanged pc cc && no_mlog cc
      | STok o au deny w =>
-         let c := mkCall o au (mkOracle [] false false (w_recovered w)) in
-         links_ok pt ct c (is_ok (si_out it))
+         let c := mkCall o au (fun _ => mkOracle [] false false (w_recovered w)) in
+         wf_call univ c
+         && links_ok pt ct c (is_ok (si_out it))
+         && allow_ok c (is_ok (si_out it)) (pairs univ) (ob_allow pt) (ob_allow ct)
+         && (ob_supply ct =? supply_after pt c (is_ok (si_out it)))
          && cmp_unchanged pc cc
          && match si_out it with
             | Fail =>
@@ -221,6 +224,14 @@ Fixpoint smon_from cf univ tok (prev : sobs) (items : list sitem) (i : N) : N :=
   match items with
   | [] => 0%N
   | it :: r => if smon_step cf univ tok prev it then smon_from cf univ tok (si_obs it) r (N.succ i) else N.succ i
+  end.
+
+(* well-formed calls: parties inside the observed universe, the compliance calls about this token *)
+Definition swf (univ : list addr) (tok : addr) (c : scall) : bool :=
+  match c with
+  | STok o au _ w => wf_call univ (mkCall o au (fun _ => mkOracle [] false false (w_recovered w)))
+  | SCmp cc => cwf_call [tok] cc
+  | SEdit => true
   end.
 
 Definition check_stack (t : strace) : verdict :=
